@@ -92,6 +92,15 @@ void Logger::processMessage(QtMsgType type, const QMessageLogContext &context,
 
     LogMessage lmsg(type, context, message);
     process(lmsg);
+
+    // Qt aborts the process as soon as the handler of a fatal message returns:
+    // nothing written so far may be left in the buffers of the sinks
+    if (type == QtFatalMsg) {
+#ifndef QTLOGGER_NO_THREAD
+        if (!ownThreadIsRunning())
+#endif
+            flush();
+    }
 }
 
 QTLOGGER_DECL_SPEC
